@@ -670,6 +670,9 @@ class SF:
         q = self.__truediv__(o)
         return sym_floor(q)
 
+    def __rfloordiv__(self, o):
+        return SF.lift(o).__floordiv__(self)
+
     def __mod__(self, o):
         o = SF.lift(o)
         ov = z3.simplify(o.v)
